@@ -3,6 +3,19 @@
 CRYPTO_NOTE = "cryptographic primitives are parameters of the model; assumptions about them are explicit theorem hypotheses"
 
 PROPS = {
+    "C02": {
+        "rule": "(a) exhaustive small scope: 2 document types x 1 namespace x 2 elements, every held/requested/permitted subset; (b) random cases with up to 3 held documents x 3 namespaces x 4 elements, requests naming unheld documents/namespaces/elements and "
+                "repeating a document type, permissions that are supersets, contain duplicates, are shuffled, name unrequested documents; a non-signing device key; through the real default DeviceSession::prepare_response (public trait) and filter_permitted; "
+                "(c) wire level: real sessions with 1-5 request rounds, each decrypted DeviceResponse checked against the request being answered only. Distinct by operation line",
+        "exhaustive": True,
+        "xlate_items": [],
+        "trusted_base": ["hand model of filter_permitted / prepare_response over association lists (Model/Disclosure.lean), tied by correspondence on the PreparedDeviceResponse and on decrypted wire responses",
+                         "harness abstraction: string keys -> numbers preserving BTreeMap order; item identity by byte equality with the held Tag24"],
+        "level_text": "Lean theorems for all held sets, requests and permissions (no size bound): filter_permitted is an intersection; every disclosed item is requested, permitted and the exact held item; element and document errors concern only requested+permitted data; every requested (by the first request for its docType) and permitted element is disclosed, listed with an error, or its document is a document error; unheld documents are document errors. Tied by exhaustive small-scope and random correspondence incl. the wire level across request sequences.",
+        "level_note": "Trusted: Lean kernel; model validated by correspondence; completeness is stated for the first document request per docType (the code ignores later ones: theorem C02_second_request_for_same_doctype_ignored, DESIGN O-C02).",
+        "technique": "Lean 4 proof (induction over association lists / folds) + exhaustive small-scope and random correspondence",
+        "assumptions": [],
+    },
     "C06": {
         "rule": "two concurrent real sessions; from every synchronised state (saved and reloaded through stringify/parse) each fresh honest message of either direction is delivered as: single-bit flips of the ciphertext "
                 "(boundary + sampled positions; thorough: every bit), truncations and extension re-wrapped as SessionData, every earlier message of the direction (replay/reorder), every message of the other direction (reflection), "
